@@ -119,9 +119,11 @@ Definition in_guard (h : zhugr) (c : zcmd) (rt' : ret) : bool :=
   match s_step (abs h) (reannot c) rt' with OutOfScope => false | _ => true end.
 
 (* correspondence: the implementation's return value, outcome class and observation == the model's.
-   WHICH free index a new node gets (and which indices the copies of an insertion get) is not prescribed by the
-   property: the model takes the implementation's return value as the oracle of that choice ([step rt]) and follows
-   it when it is admissible (a free index); an inadmissible choice shows as a different return value.
+   WHICH index a new node gets (and which indices the copies of an insertion get, in which order) is not prescribed
+   by the property: the model takes the implementation's return value as the oracle of that choice ([step rt]) and
+   follows it when it is admissible (any index that is not live: a freed one, the next fresh one, or one further beyond
+   the end of the table; for an insertion: a mapping that is injective onto such indices); an inadmissible choice
+   shows as a different return value.
    A call outside the property's guard ends the comparison: its exception class and effect are unspecified. *)
 Fixpoint corr_steps (u : universe) (h : zhugr) (l : list (zcmd * (ret * res * obs))) : bool :=
   match l with
